@@ -27,14 +27,22 @@ ASSUMPTIONS = ['measure numbering: barline rows open measures; a pick-up before 
 @st.composite
 def cases(draw, across=False):
     others = draw(st.booleans())
-    doc = draw(D.measure_documents(D.mprofile(others=others, rejoin_before_bar=not across)))
-    return {'doc': doc}
+    doc = draw(D.measure_documents(D.mprofile(others=others, rejoin_before_bar=not across, partial_term=draw(st.integers(0, 2)) == 0)))
+    if others and draw(st.integers(0, 2)) == 0:
+        # a quotation that opens in one lyric / label cell and closes in a later one (cell text is literal: a double
+        # quote at the start of a cell must not be read as the start of a quoted field by the line reader)
+        tc = [(i, k) for i, k, c in S.cells(doc) if c['k'] == 'text']
+        if len(tc) >= 2:
+            (i1, k1), (i2, k2) = tc[0], tc[-1]
+            doc['rows'][i1]['c'][k1] = dict(doc['rows'][i1]['c'][k1], t='"Ich', e='"Ich')
+            doc['rows'][i2]['c'][k2] = dict(doc['rows'][i2]['c'][k2], t='Gott"', e='Gott"')
+    return {'doc': doc, 'file': draw(st.booleans())}  # imported with kernpy.load from a file in half of the cases
 
 
 def check(case):
     doc = case['doc']
     text = S.render(doc)
-    kdoc = K.loads_clean(text)
+    kdoc = K.loads_clean(text, via_file=bool(case.get('file')))
     a_ = S.analyze(doc)
     mixed = any(t != '**kern' for t in doc['types'])
     kw = {'spine_types': ['**kern']} if mixed else {}
